@@ -182,7 +182,10 @@ func (w *worker) work(controller inputer, jobProvider *jobProvider, readBufferSi
 						inBuf = accumBuf
 					}
 
-					job.lastEventSeq = controller.In(sourceID, sourceName, pipeline.NewOffsets(lastOffset+scanned, offsets), inBuf, isVirgin, metadataInfo)
+					// a rejected line has no sequence number: keep the last accepted one (truncateJob relies on it)
+					if seq := controller.In(sourceID, sourceName, pipeline.NewOffsets(lastOffset+scanned, offsets), inBuf, isVirgin, metadataInfo); seq != pipeline.EventSeqIDError {
+						job.lastEventSeq = seq
+					}
 				}
 				// restore the line buffer
 				accumBuf = accumBuf[:0]
